@@ -311,4 +311,501 @@ theorem validate_ok_iff_valid (o : Opt) (ho : RegOK o) (v : Val) (hv : v.WF) (c 
   | bytes h => exact validate_rest o _ c (Or.inr (Or.inr (Or.inl ⟨h, rfl⟩)))
   | other t => exact validate_rest o _ c (Or.inr (Or.inr (Or.inr ⟨t, rfl⟩)))
 
+/-! ### a validated value survives the trip through config.json -/
+
+theorem fltInt_natAbs (n : Int) : fltInt (decide (n < 0)) n.natAbs = n := by
+  unfold fltInt
+  by_cases h : n < 0 <;> simp [h] <;> omega
+
+theorem canon_jsonVal (ty : OptType) (v : Val) (c : Cache) (h : canon ty v = some c) :
+    canon ty (jsonVal ty c) = some c := by
+  cases ty <;> cases v <;> simp [canon] at h
+  · subst h; simp [jsonVal, canon]
+  · subst h; simp [jsonVal, canon, allStrings_map_some]
+  · obtain ⟨ss, h1, h2⟩ := h; subst h2; simp [jsonVal, canon, allStrings_map_some]
+  · subst h; simp [jsonVal, canon, fltInt_natAbs]
+  · rename_i w neg mag half
+    cases half <;> simp [canon] at h
+    subst h; simp [jsonVal, canon, fltInt_natAbs]
+  · subst h; simp [jsonVal, canon]
+
+theorem jsonVal_WF (ty : OptType) (c : Cache) : (jsonVal ty c).WF := by
+  cases ty <;> simp [jsonVal, Val.WF]
+
+theorem migrate_one (v : Val) : migrate 1 v = if v = .str "old" then .str "new" else v := rfl
+
+theorem migrate_two (v : Val) : migrate 2 v =
+    match v with | .bool true => .str "yes" | .bool false => .str "no" | _ => v := rfl
+
+theorem migrate_other (mg : Nat) (h1 : mg ≠ 1) (h2 : mg ≠ 2) (v : Val) : migrate mg v = v := by
+  unfold migrate
+  split <;> simp_all
+
+theorem migrate_WF (mg : Nat) (v : Val) (h : v.WF) : (migrate mg v).WF := by
+  by_cases h1 : mg = 1
+  · subst h1; rw [migrate_one]; split <;> simp_all [Val.WF]
+  · by_cases h2 : mg = 2
+    · subst h2; rw [migrate_two]; split <;> simp_all [Val.WF]
+    · rw [migrate_other mg h1 h2]; exact h
+
+theorem migrate_jsonVal (mg : Nat) (ty : OptType) (v : Val) (c : Cache) (h : canon ty (migrate mg v) = some c) :
+    migrate mg (jsonVal ty c) = jsonVal ty c := by
+  by_cases h1 : mg = 1
+  · subst h1
+    rw [migrate_one] at h ⊢
+    by_cases hv : v = .str "old"
+    · simp only [hv, if_true] at h
+      cases ty <;> simp [canon] at h
+      subst h; simp [jsonVal]
+    · simp only [hv, if_false] at h
+      cases ty <;> cases v <;> simp [canon, jsonVal] at h ⊢
+      subst h
+      intro hs
+      exact absurd (by simpa using hs) hv
+  · by_cases h2 : mg = 2
+    · subst h2
+      rw [migrate_two] at h ⊢
+      cases ty <;> simp [jsonVal]
+      cases v <;> simp [canon] at h
+      rename_i b; cases b <;> simp [canon] at h
+    · rw [migrate_other mg h1 h2]
+
+theorem valid_jsonVal (o : Opt) (v : Val) (c : Cache) (h : Valid o v c) : Valid o (jsonVal o.ty c) c :=
+  ⟨canon_jsonVal o.ty v c h.1, h.2⟩
+
+theorem check_json_idem (o : Opt) (ho : RegOK o) (v : Val) (hv : v.WF) (c : Cache) (h : check o v = .ok c) :
+    check o (jsonVal o.ty c) = .ok c := by
+  unfold check at h ⊢
+  have hval := (validate_ok_iff_valid o ho _ (migrate_WF o.mg v hv) c).mp h
+  rw [migrate_jsonVal o.mg o.ty v c hval.1]
+  exact (validate_ok_iff_valid o ho _ (jsonVal_WF _ _) c).mpr (valid_jsonVal o _ c hval)
+
+/-! ### updating one option in the registry -/
+
+theorem check_static (a b : Opt) (h : SameStatic a b) (v : Val) : check a v = check b v := by
+  obtain ⟨_, h2, _, h4, h5, h6, h7, _⟩ := h
+  have e : ∀ ss, entriesCheck a ss = entriesCheck b ss := by
+    intro ss; induction ss with
+    | nil => rfl
+    | cons x r ih => simp [entriesCheck, h4, h5, ih]
+  unfold check validate validateStrs strsBody intBody vfCheck
+  simp only [h2, h4, h5, h6, h7, e]
+
+theorem regOK_static (a b : Opt) (h : SameStatic a b) (hb : RegOK b) : RegOK a := by
+  obtain ⟨_, _, _, h4, h5, _⟩ := h
+  unfold RegOK at *; rw [h4, h5]; exact hb
+
+theorem mem_setOptIn {o' p : Opt} : ∀ {l : List Opt}, p ∈ setOptIn o' l → p = o' ∨ p ∈ l
+  | [], h => by simp [setOptIn] at h
+  | q :: rest, h => by
+    by_cases hq : q.key = o'.key
+    · simp [setOptIn, hq] at h
+      rcases h with h | h
+      · exact Or.inl h
+      · exact Or.inr (List.mem_cons_of_mem _ h)
+    · simp [setOptIn, hq] at h
+      rcases h with h | h
+      · exact Or.inr (h ▸ List.mem_cons_self)
+      · rcases mem_setOptIn h with h | h
+        · exact Or.inl h
+        · exact Or.inr (List.mem_cons_of_mem _ h)
+
+theorem updateGate_opts (st : St) : (updateGate st).opts = st.opts := by
+  unfold updateGate; split <;> rfl
+
+theorem updateGate_find (st : St) (k : Key) : (updateGate st).find k = st.find k := by
+  simp [St.find, updateGate_opts]
+
+theorem updateGate_gate (st : St) (o : Opt) (h : st.find rlKey = some o) :
+    (updateGate st).gate = levelOf (layered o).s := by
+  simp [updateGate, h]
+
+theorem putOpt_opts (st : St) (o' : Opt) : (putOpt st o').opts = setOptIn o' st.opts := by
+  unfold putOpt; split <;> simp [updateGate_opts]
+
+theorem putOpt_find_same (st : St) (o o' : Opt) (h : st.find o'.key = some o) :
+    (putOpt st o').find o'.key = some o' := by
+  have hm := find?_some_mem h
+  rw [find_eq, putOpt_opts]
+  exact find?_setOptIn_same o' _ ⟨o, hm.1, hm.2⟩
+
+theorem putOpt_find_other (st : St) (o' : Opt) (k : Key) (hk : k ≠ o'.key) :
+    (putOpt st o').find k = st.find k := by
+  rw [find_eq, putOpt_opts, find?_setOptIn_other o' k hk]; rfl
+
+theorem putOpt_gate_rl (st : St) (o o' : Opt) (h : st.find o'.key = some o) (hk : o'.key = rlKey) :
+    (putOpt st o').gate = levelOf (layered o').s := by
+  have hf : ({ st with opts := setOptIn o' st.opts } : St).find rlKey = some o' := by
+    have hm := find?_some_mem h
+    rw [find_eq, ← hk]
+    exact find?_setOptIn_same o' _ ⟨o, hm.1, hm.2⟩
+  unfold putOpt
+  simp only [hk, if_true]
+  exact updateGate_gate _ _ hf
+
+theorem putOpt_gate_other (st : St) (o' : Opt) (hk : o'.key ≠ rlKey) : (putOpt st o').gate = st.gate := by
+  unfold putOpt; simp [hk]
+
+theorem putOpt_misc (st : St) (o' : Opt) :
+    (putOpt st o').gen = st.gen ∧ (putOpt st o').persist = st.persist ∧ (putOpt st o').file = st.file := by
+  have hu : ∀ s : St, (updateGate s).gen = s.gen ∧ (updateGate s).persist = s.persist ∧ (updateGate s).file = s.file := by
+    intro s; unfold updateGate; split <;> simp
+  unfold putOpt
+  split
+  · exact hu _
+  · simp
+
+theorem wf_putOpt (st : St) (h : WF st) (o o' : Opt) (hf : st.find o'.key = some o) (hs : SameStatic o' o)
+    (hu : ∀ c, o'.user = some c → check o' (jsonVal o'.ty c) = .ok c) : WF (putOpt st o') := by
+  have hm := find?_some_mem hf
+  refine ⟨?_, ?_, ?_, ?_, ?_⟩
+  rotate_right
+  · rw [(putOpt_misc st o').2.2]; exact h.fileWF
+  · rw [putOpt_opts, setOptIn_keys]; exact h.nodup
+  · intro p hp
+    rw [putOpt_opts] at hp
+    rcases mem_setOptIn hp with rfl | hp
+    · exact regOK_static _ _ hs (h.reg o hm.1)
+    · exact h.reg p hp
+  · obtain ⟨r, hr1, hr2, hr3, hr4⟩ := h.rl
+    by_cases hk : o'.key = rlKey
+    · have : o = r := by rw [hk] at hf; rw [hf] at hr1; exact Option.some.inj hr1
+      subst this
+      refine ⟨o', ?_, ?_, ?_, ?_⟩
+      · rw [← hk]; exact putOpt_find_same st o o' hf
+      · rw [hs.2.1]; exact hr2
+      · rw [hs.2.2.1]; exact hr3
+      · exact putOpt_gate_rl st o o' hf hk
+    · refine ⟨r, ?_, hr2, hr3, ?_⟩
+      · rw [putOpt_find_other st o' rlKey (fun e => hk e.symm)]; exact hr1
+      · rw [putOpt_gate_other st o' hk]; exact hr4
+  · intro p hp c hc
+    rw [putOpt_opts] at hp
+    rcases mem_setOptIn hp with rfl | hp
+    · exact hu c hc
+    · exact h.uvalid p hp c hc
+
+theorem effective_rl0 (gate : Nat) (o : Opt) (h : o.rl = 0) : effective gate o = layered o := by
+  unfold effective layered
+  cases hu : o.user <;> cases hd : o.dflt <;> simp [h]
+
+theorem effRL_eq_gate (st : St) (h : WF st) : effRL st = st.gate := by
+  obtain ⟨r, hr1, hr2, hr3, hr4⟩ := h.rl
+  unfold effRL get getCache
+  simp [hr1, GVal.ty, hr2, Cache.proj, effective_rl0 _ r hr3, hr4]
+
+/-! ### single-option set -/
+
+theorem putOpt_self (st : St) (h : WF st) (o : Opt) (hf : st.find o.key = some o) : putOpt st o = st := by
+  have ho : setOptIn o st.opts = st.opts := setOptIn_self o st.opts hf
+  unfold putOpt
+  simp only [ho]
+  by_cases hk : o.key = rlKey
+  · obtain ⟨r, hr1, _, _, hr4⟩ := h.rl
+    have : o = r := by rw [hk] at hf; rw [hf] at hr1; exact Option.some.inj hr1
+    subst this
+    simp only [hk, if_true]
+    unfold updateGate
+    rw [show ({ st with opts := st.opts } : St) = st from rfl, hr1]
+    simp only []
+    rw [← hr4]
+  · simp [hk]
+
+theorem save_find (st : St) (k : Key) : (save st).find k = st.find k := by
+  unfold save; split <;> rfl
+
+theorem signal_find (st : St) (k : Key) : (signal st).find k = st.find k := rfl
+
+theorem save_gate (st : St) : (save st).gate = st.gate := by unfold save; split <;> rfl
+theorem save_gen (st : St) : (save st).gen = st.gen := by unfold save; split <;> rfl
+theorem save_opts (st : St) : (save st).opts = st.opts := by unfold save; split <;> rfl
+theorem save_persist (st : St) : (save st).persist = st.persist := by unfold save; split <;> rfl
+
+/-- The three possible outcomes of the locked section of a single-option set. -/
+theorem writeUser_cases (st : St) (h : WF st) (k : Key) (v : Val) (hv : v.WF) :
+    (st.find k = none ∧ writeUser st k v = (st, .error .unknown)) ∨
+    (∃ o, st.find k = some o ∧ v = .nil ∧ writeUser st k v = (putOpt st { o with user := none }, .ok ())) ∨
+    (∃ o c, st.find k = some o ∧ v ≠ .nil ∧ Valid o (migrate o.mg v) c ∧
+        writeUser st k v = (putOpt st { o with user := some c }, .ok ())) ∨
+    (∃ o e, st.find k = some o ∧ v ≠ .nil ∧ (∀ c, ¬ Valid o (migrate o.mg v) c) ∧
+        writeUser st k v = (st, .error (.invalid e))) := by
+  unfold writeUser
+  cases hf : st.find k with
+  | none => exact Or.inl ⟨rfl, rfl⟩
+  | some o =>
+    have hm := find?_some_mem hf
+    have hiff := validate_ok_iff_valid o (h.reg o hm.1) _ (migrate_WF o.mg v hv)
+    by_cases hn : v = .nil
+    · exact Or.inr (Or.inl ⟨o, rfl, hn, by simp [hn]⟩)
+    · simp only [hn, if_false]
+      cases hc : check o v with
+      | ok c =>
+        refine Or.inr (Or.inr (Or.inl ⟨o, c, rfl, hn, (hiff c).mp hc, rfl⟩))
+      | error e =>
+        refine Or.inr (Or.inr (Or.inr ⟨o, e, rfl, hn, ?_, ?_⟩))
+        · intro c hval
+          have := (hiff c).mpr hval
+          unfold check at hc; rw [hc] at this; cases this
+        · have hk : o.key = k := hm.2
+          rw [putOpt_self st h o (by rw [hk]; exact hf)]
+
+/-- The same for the default layer. -/
+theorem writeDflt_cases (st : St) (h : WF st) (k : Key) (v : Val) (hv : v.WF) :
+    (st.find k = none ∧ writeDflt st k v = (st, .error .unknown)) ∨
+    (∃ o, st.find k = some o ∧ v = .nil ∧ writeDflt st k v = (putOpt st { o with dflt := none }, .ok ())) ∨
+    (∃ o c, st.find k = some o ∧ v ≠ .nil ∧ Valid o (migrate o.mg v) c ∧
+        writeDflt st k v = (putOpt st { o with dflt := some c }, .ok ())) ∨
+    (∃ o e, st.find k = some o ∧ v ≠ .nil ∧ (∀ c, ¬ Valid o (migrate o.mg v) c) ∧
+        writeDflt st k v = (st, .error (.invalid e))) := by
+  unfold writeDflt
+  cases hf : st.find k with
+  | none => exact Or.inl ⟨rfl, rfl⟩
+  | some o =>
+    have hm := find?_some_mem hf
+    have hiff := validate_ok_iff_valid o (h.reg o hm.1) _ (migrate_WF o.mg v hv)
+    by_cases hn : v = .nil
+    · exact Or.inr (Or.inl ⟨o, rfl, hn, by simp [hn]⟩)
+    · simp only [hn, if_false]
+      cases hc : check o v with
+      | ok c =>
+        refine Or.inr (Or.inr (Or.inl ⟨o, c, rfl, hn, (hiff c).mp hc, rfl⟩))
+      | error e =>
+        refine Or.inr (Or.inr (Or.inr ⟨o, e, rfl, hn, ?_, ?_⟩))
+        · intro c hval
+          have := (hiff c).mpr hval
+          unfold check at hc; rw [hc] at this; cases this
+        · have hk : o.key = k := hm.2
+          rw [putOpt_self st h o (by rw [hk]; exact hf)]
+
+/-! ### whole-layer replace, invariants -/
+
+theorem find?_map_key (f : Opt → Opt) (hf : ∀ o, (f o).key = o.key) (k : Key) : ∀ (l : List Opt),
+    (l.map f).find? (fun o => o.key = k) = (l.find? (fun o => o.key = k)).map f
+  | [] => rfl
+  | p :: rest => by
+    by_cases hp : p.key = k
+    · simp [List.find?, hf, hp]
+    · simp [List.find?, hf, hp, find?_map_key f hf k rest]
+
+theorem lookup_mem {m : List (Key × Val)} {k : Key} {v : Val} (h : lookup m k = some v) : (k, v) ∈ m := by
+  unfold lookup at h
+  cases hf : m.find? (fun e => e.1 = k) with
+  | none => simp [hf] at h
+  | some e =>
+    simp [hf] at h
+    have h1 := List.mem_of_find?_eq_some hf
+    have h2 := List.find?_some hf
+    simp at h2
+    cases e; simp_all
+
+theorem replOne_some {m : List (Key × Val)} {o : Opt} {c : Cache} (h : replOne m o = some c) :
+    ∃ v, lookup m o.key = some v ∧ check o v = .ok c := by
+  unfold replOne at h
+  cases hl : lookup m o.key with
+  | none => simp [hl] at h
+  | some v =>
+    simp only [hl] at h
+    cases hc : check o v with
+    | ok c' => simp [hc] at h; subst h; exact ⟨v, rfl, hc⟩
+    | error e => simp [hc] at h
+
+/-- WF after replacing the user layer of every option. -/
+theorem wf_mapUser (st : St) (h : WF st) (f : Opt → Option Cache)
+    (hf : ∀ o ∈ st.opts, ∀ c, f o = some c → check o (jsonVal o.ty c) = .ok c) :
+    WF (updateGate { st with opts := st.opts.map (fun o => { o with user := f o }) }) := by
+  have hkey : ∀ o : Opt, ({ o with user := f o } : Opt).key = o.key := fun _ => rfl
+  refine ⟨?_, ?_, ?_, ?_, ?_⟩
+  rotate_right
+  · have : ∀ s : St, (updateGate s).file = s.file := by intro s; unfold updateGate; split <;> rfl
+    rw [this]; exact h.fileWF
+  · rw [updateGate_opts]; simp only [List.map_map]; exact h.nodup
+  · intro p hp
+    rw [updateGate_opts] at hp
+    simp only [List.mem_map] at hp
+    obtain ⟨o, ho, rfl⟩ := hp
+    exact h.reg o ho
+  · obtain ⟨r, hr1, hr2, hr3, _⟩ := h.rl
+    have hfind : ({ st with opts := st.opts.map (fun o => { o with user := f o }) } : St).find rlKey
+        = some { r with user := f r } := by
+      rw [find_eq]; simp only []
+      rw [find?_map_key _ hkey rlKey st.opts]
+      rw [find_eq] at hr1; rw [hr1]; rfl
+    refine ⟨{ r with user := f r }, ?_, hr2, hr3, ?_⟩
+    · rw [updateGate_find]; exact hfind
+    · exact updateGate_gate _ _ hfind
+  · intro p hp c hc
+    rw [updateGate_opts] at hp
+    simp only [List.mem_map] at hp
+    obtain ⟨o, ho, rfl⟩ := hp
+    exact (check_static { o with user := f o } o ⟨rfl, rfl, rfl, rfl, rfl, rfl, rfl, rfl⟩ _).trans (hf o ho c hc)
+
+theorem wf_mapDflt (st : St) (h : WF st) (f : Opt → Option Cache) :
+    WF (updateGate { st with opts := st.opts.map (fun o => { o with dflt := f o }) }) := by
+  have hkey : ∀ o : Opt, ({ o with dflt := f o } : Opt).key = o.key := fun _ => rfl
+  refine ⟨?_, ?_, ?_, ?_, ?_⟩
+  rotate_right
+  · have : ∀ s : St, (updateGate s).file = s.file := by intro s; unfold updateGate; split <;> rfl
+    rw [this]; exact h.fileWF
+  · rw [updateGate_opts]; simp only [List.map_map]; exact h.nodup
+  · intro p hp
+    rw [updateGate_opts] at hp
+    simp only [List.mem_map] at hp
+    obtain ⟨o, ho, rfl⟩ := hp
+    exact h.reg o ho
+  · obtain ⟨r, hr1, hr2, hr3, _⟩ := h.rl
+    have hfind : ({ st with opts := st.opts.map (fun o => { o with dflt := f o }) } : St).find rlKey
+        = some { r with dflt := f r } := by
+      rw [find_eq]; simp only []
+      rw [find?_map_key _ hkey rlKey st.opts]
+      rw [find_eq] at hr1; rw [hr1]; rfl
+    refine ⟨{ r with dflt := f r }, ?_, hr2, hr3, ?_⟩
+    · rw [updateGate_find]; exact hfind
+    · exact updateGate_gate _ _ hfind
+  · intro p hp c hc
+    rw [updateGate_opts] at hp
+    simp only [List.mem_map] at hp
+    obtain ⟨o, ho, rfl⟩ := hp
+    exact (check_static { o with dflt := f o } o ⟨rfl, rfl, rfl, rfl, rfl, rfl, rfl, rfl⟩ _).trans (h.uvalid o ho c hc)
+
+theorem wf_signal (st : St) (h : WF st) : WF (signal st) := ⟨h.nodup, h.reg, h.rl, h.uvalid, h.fileWF⟩
+
+theorem mem_foldl_putLeaf (e : Key × Val) : ∀ (m t : List (Key × Val)), e ∈ m.foldl putLeaf t → e ∈ t ∨ e ∈ m
+  | [], t, h => Or.inl h
+  | kv :: rest, t, h => by
+    rcases mem_foldl_putLeaf e rest (putLeaf t kv) h with h1 | h1
+    · unfold putLeaf at h1
+      rcases List.mem_append.mp h1 with h2 | h2
+      · exact Or.inl (List.mem_filter.mp h2).1
+      · simp at h2; exact Or.inr (h2 ▸ List.mem_cons_self)
+    · exact Or.inr (List.mem_cons_of_mem _ h1)
+
+theorem mem_expand {e : Key × Val} {m : List (Key × Val)} (h : e ∈ expand m) : e ∈ m := by
+  rcases mem_foldl_putLeaf e m [] h with h | h
+  · cases h
+  · exact h
+
+theorem userEntries_WF (st : St) : ∀ e ∈ userEntries st, e.2.WF := by
+  intro e he
+  unfold userEntries at he
+  simp only [List.mem_filterMap] at he
+  obtain ⟨o, _, ho⟩ := he
+  cases hu : o.user with
+  | none => simp [hu] at ho
+  | some c => simp [hu] at ho; rw [← ho]; exact jsonVal_WF _ _
+
+theorem wf_save (st : St) (h : WF st) : WF (save st) := by
+  unfold save; split
+  · refine ⟨h.nodup, h.reg, h.rl, h.uvalid, ?_⟩
+    intro t ht e he
+    simp at ht
+    subst ht
+    exact userEntries_WF st e (mem_expand he)
+  · exact h
+
+theorem wf_file (st : St) (h : WF st) (f : File) (hf : ∀ t, f = .tree t → ∀ e ∈ t, e.2.WF) :
+    WF { st with file := f } := ⟨h.nodup, h.reg, h.rl, h.uvalid, hf⟩
+
+/-! ### every call keeps the state well-formed -/
+
+theorem check_of_valid (o : Opt) (ho : RegOK o) (v : Val) (hv : v.WF) (c : Cache) (h : Valid o (migrate o.mg v) c) :
+    check o v = .ok c :=
+  (validate_ok_iff_valid o ho _ (migrate_WF o.mg v hv) c).mpr h
+
+theorem wf_writeUser (st : St) (h : WF st) (k : Key) (v : Val) (hv : v.WF) : WF (writeUser st k v).1 := by
+  rcases writeUser_cases st h k v hv with ⟨_, e⟩ | ⟨o, hf, _, e⟩ | ⟨o, c, hf, _, hval, e⟩ | ⟨o, _, _, _, _, e⟩
+  · rw [e]; exact h
+  · rw [e]
+    have hm := find?_some_mem hf
+    exact wf_putOpt st h o _ (by rw [show ({ o with user := none } : Opt).key = k from hm.2]; exact hf)
+      ⟨rfl, rfl, rfl, rfl, rfl, rfl, rfl, rfl⟩ (by intro c hc; cases hc)
+  · rw [e]
+    have hm := find?_some_mem hf
+    refine wf_putOpt st h o _ (by rw [show ({ o with user := some c } : Opt).key = k from hm.2]; exact hf)
+      ⟨rfl, rfl, rfl, rfl, rfl, rfl, rfl, rfl⟩ ?_
+    intro c' hc'
+    have : c = c' := by simpa using hc'
+    subst this
+    have hck := check_of_valid o (h.reg o hm.1) v hv c hval
+    exact (check_static { o with user := some c } o ⟨rfl, rfl, rfl, rfl, rfl, rfl, rfl, rfl⟩ _).trans
+      (check_json_idem o (h.reg o hm.1) v hv c hck)
+  · rw [e]; exact h
+
+theorem wf_writeDflt (st : St) (h : WF st) (k : Key) (v : Val) (hv : v.WF) : WF (writeDflt st k v).1 := by
+  rcases writeDflt_cases st h k v hv with ⟨_, e⟩ | ⟨o, hf, _, e⟩ | ⟨o, c, hf, _, hval, e⟩ | ⟨o, _, _, _, _, e⟩
+  · rw [e]; exact h
+  · rw [e]
+    have hm := find?_some_mem hf
+    refine wf_putOpt st h o _ (by rw [show ({ o with dflt := none } : Opt).key = k from hm.2]; exact hf)
+      ⟨rfl, rfl, rfl, rfl, rfl, rfl, rfl, rfl⟩ ?_
+    intro c' hc'
+    exact (check_static { o with dflt := none } o ⟨rfl, rfl, rfl, rfl, rfl, rfl, rfl, rfl⟩ _).trans (h.uvalid o hm.1 c' hc')
+  · rw [e]
+    have hm := find?_some_mem hf
+    refine wf_putOpt st h o _ (by rw [show ({ o with dflt := some c } : Opt).key = k from hm.2]; exact hf)
+      ⟨rfl, rfl, rfl, rfl, rfl, rfl, rfl, rfl⟩ ?_
+    intro c' hc'
+    exact (check_static { o with dflt := some c } o ⟨rfl, rfl, rfl, rfl, rfl, rfl, rfl, rfl⟩ _).trans (h.uvalid o hm.1 c' hc')
+  · rw [e]; exact h
+
+theorem wf_setUser (st : St) (h : WF st) (k : Key) (v : Val) (hv : v.WF) : WF (setUser st k v).1 := by
+  have hw := wf_writeUser st h k v hv
+  unfold setUser
+  split
+  · rename_i st' heq; rw [heq] at hw; exact wf_save _ (wf_signal _ hw)
+  · rename_i st' e heq; rw [heq] at hw; exact hw
+
+theorem wf_setDflt (st : St) (h : WF st) (k : Key) (v : Val) (hv : v.WF) : WF (setDflt st k v).1 := by
+  have hw := wf_writeDflt st h k v hv
+  unfold setDflt
+  split
+  · rename_i st' heq; rw [heq] at hw; exact wf_signal _ hw
+  · rename_i st' e heq; rw [heq] at hw; exact hw
+
+theorem wf_replaceUser (st : St) (h : WF st) (m : List (Key × Val)) (hm : ∀ e ∈ m, e.2.WF) :
+    WF (replaceUser st m).1 := by
+  unfold replaceUser
+  refine wf_signal _ (wf_mapUser st h (replOne m) ?_)
+  intro o ho c hc
+  obtain ⟨v, hl, hck⟩ := replOne_some hc
+  exact check_json_idem o (h.reg o ho) v (hm _ (lookup_mem hl)) c hck
+
+theorem wf_replaceDflt (st : St) (h : WF st) (m : List (Key × Val)) : WF (replaceDflt st m).1 := by
+  unfold replaceDflt
+  exact wf_signal _ (wf_mapDflt st h (replOne m))
+
+theorem wf_load (st : St) (h : WF st) (b : Bool) : WF (load st b).1 := by
+  unfold load
+  split
+  · exact h
+  · split
+    · exact h
+    · exact h
+    · rename_i t heq
+      have := wf_replaceUser st h (flatten t) (h.fileWF t heq)
+      simp only []
+      split <;> exact this
+
+
+theorem wf_apply (st : St) (h : WF st) (op : Op) (hop : op.WF) : WF (apply st op) := by
+  cases op with
+  | set k v => exact wf_setUser st h k v hop
+  | setd k v => exact wf_setDflt st h k v hop
+  | rep m => exact wf_replaceUser st h m hop
+  | repd m => exact wf_replaceDflt st h m
+  | save => exact wf_save st h
+  | load b => exact wf_load st h b
+  | wfile f =>
+    refine wf_file st h f ?_
+    intro t ht
+    subst ht
+    exact hop
+
+theorem wf_run (ops : List Op) : ∀ (st : St), WF st → (∀ op ∈ ops, op.WF) → WF (run st ops) := by
+  induction ops with
+  | nil => intro st h _; exact h
+  | cons op rest ih =>
+    intro st h hops
+    exact ih (apply st op) (wf_apply st h op (hops op List.mem_cons_self))
+      (fun o ho => hops o (List.mem_cons_of_mem _ ho))
+
 end PB.Config
